@@ -152,5 +152,114 @@ def gen_case(rng, tier):
     return "qc max=%d|%s" % (max_ttl, ";".join(steps))
 
 
+ADDRS = ["127.0.0.1", "10.0.0.2", "10.0.0.3", "192.168.7.7", "fd00::1", "fd00::2"]
+
+
+def fmt_items(rng, api, lst):
+    """lst: [(addr, udp, tcp)] with 0 = default; returns the list= text for the API, or None if the
+    API cannot express it"""
+    out = []
+    for (a, u, t) in lst:
+        if api == "nodes":
+            if u or t:
+                return None
+            out.append(a)
+        elif api == "pnodes":
+            out.append("%s/%d/%d" % (a, u, t))
+        else:
+            if u != t:
+                return None
+            host = "[%s]" % a if ":" in a else a
+            if u == 0 and ":" in a and rng.random() < 0.5:
+                host = "[%s]" % a
+            out.append(host + (":%d" % u if u else ""))
+    return ",".join(out) or "-"
+
+
+def set_step(rng, lst):
+    apis = ["csv", "pcsv", "nodes", "pnodes"]
+    rng.shuffle(apis)
+    for api in apis:
+        txt = fmt_items(rng, api, lst)
+        if txt is not None:
+            return "set api=%s list=%s" % (api, txt)
+    return "set api=pnodes list=%s" % fmt_items(rng, "pnodes", lst)
+
+
+def edit(rng, cur, kind):
+    cur = list(cur)
+    unused = [a for a in ADDRS if a not in [c[0] for c in cur]]
+    if kind == "identical":
+        return cur
+    if kind == "explicit53":        # same list, default ports written out
+        return [(a, u or 53, t or 53) for (a, u, t) in cur]
+    if kind == "repeat":            # same list with an entry repeated
+        return cur + [rng.choice(cur)] if cur else cur
+    if kind == "add" and unused:    # strict superset, order kept
+        return cur + [(rng.choice(unused), 0, 0)]
+    if kind == "addfront" and unused:
+        return [(rng.choice(unused), 0, 0)] + cur
+    if kind == "remove" and len(cur) > 1:
+        i = rng.randrange(len(cur))
+        return cur[:i] + cur[i + 1:]
+    if kind == "replace" and unused and cur:
+        i = rng.randrange(len(cur))
+        return cur[:i] + [(rng.choice(unused), 0, 0)] + cur[i + 1:]
+    if kind == "reorder" and len(set(cur)) > 1:
+        new = list(cur)
+        for _ in range(20):
+            rng.shuffle(new)
+            if new != cur:
+                break
+        return new
+    if kind == "port" and cur:
+        i = rng.randrange(len(cur))
+        a, u, t = cur[i]
+        if rng.random() < 0.5:
+            p = rng.choice([5353, 54, 1053])
+            return cur[:i] + [(a, p, p)] + cur[i + 1:]
+        return cur[:i] + [(a, u, rng.choice([5353, 54]))] + cur[i + 1:]
+    if kind == "empty":
+        return []
+    return cur
+
+
+EDITS = ["identical", "explicit53", "repeat", "add", "addfront", "remove", "replace", "reorder", "reorder", "port", "empty"]
+
+
+def gen_edit_case(rng, tier):
+    """cache an answer, edit the server list in one systematic way, repeat the request"""
+    max_ttl = rng.choice([60, 3600, 86400])
+    primary = 1 if rng.random() < 0.1 else 0
+    chanports = rng.random() < 0.15
+    head = "qc max=%d%s%s" % (max_ttl, " primary=1" if primary else "", " udp=5300 tcp=5301" if chanports else "")
+    n0 = rng.choice([1, 2, 2, 3, 3, 4])
+    cur = [(a, 0, 0) for a in rng.sample(ADDRS, n0)]
+    t = 1000 + rng.randrange(1000)
+    steps = [set_step(rng, cur)]
+    nid = 0
+    kinds = []
+    for _ in range(rng.choice([1, 2, 3])):
+        req = [0, "r", [[1, 1, rng.choice(["example.com", "Example.COM", "a.example.com"])]]]
+        nid += 1
+        ttl = rng.choice([30, 300, 3600])
+        steps.append("ins t=%d id=%d req=%s rc=0 tc=0 rr=nA:%d" % (t, nid, req_txt(req), ttl))
+        t += rng.choice([0, 1, 2])
+        steps.append("fetch t=%d req=%s" % (t, req_txt(req)))
+        kind = rng.choice(EDITS)
+        kinds.append(kind)
+        if rng.random() < 0.12:
+            steps.append("reinit")
+            kinds[-1] = "reinit"
+        else:
+            cur = edit(rng, cur, kind)
+            steps.append(set_step(rng, cur))
+            if primary:
+                pass
+        t += rng.choice([0, 1])
+        steps.append("fetch t=%d req=%s" % (t, req_txt(mutate(rng, req) if rng.random() < 0.1 else req)))
+    return "%s ek=%s|%s" % (head, "+".join(kinds), ";".join(steps))
+
+
 def gen(rng, tier, n):
-    return [gen_case(rng, tier) for _ in range(n)]
+    return [(gen_edit_case(rng, tier) if rng.random() < 0.3 else gen_case(rng, tier)) for _ in range(n)]
